@@ -10,12 +10,12 @@ open Garnish Gen Garnish.Spec
 
 variable {F : Type}
 
-def LastClass (cur : Nat) (e : Expr F) (i : Instruction) (d : Option Nat) : Prop :=
-  (i = .tis → d = none ∧ endsTis e = true) ∧ (i = .jumpTo → d = some cur) ∧ i ≠ .endExpression
+def LastClass (cur : Nat) (_e : Expr F) (i : Instruction) (d : Option Nat) : Prop :=
+  (i = .jumpTo → d = some cur) ∧ i ≠ .endExpression
 
 theorem LastClass.plain {cur : Nat} {e : Expr F} {i : Instruction} {d : Option Nat}
-    (h1 : i ≠ .tis) (h2 : i ≠ .jumpTo) (h3 : i ≠ .endExpression) : LastClass cur e i d :=
-  ⟨fun h => absurd h h1, fun h => absurd h h2, h3⟩
+    (_h1 : i ≠ .tis) (h2 : i ≠ .jumpTo) (h3 : i ≠ .endExpression) : LastClass cur e i d :=
+  ⟨fun h => absurd h h2, h3⟩
 
 theorem last_cases (P : Prog F) (root cur : Nat) : ∀ (e : Expr F) (pc : Nat),
     Located P root cur pc e → wfE e = true →
@@ -40,14 +40,14 @@ theorem last_cases (P : Prog F) (root cur : Nat) : ∀ (e : Expr F) (pc : Nat),
     simp only [wfE, Bool.and_eq_true] at hw
     refine ⟨op, none, by simpa [len] using h.2, ?_⟩
     have := hw.1
-    cases op <;> simp [unOK] at this <;> simp [LastClass, endsTis]
+    cases op <;> simp [unOK] at this <;> simp [LastClass]
   | .binary op l r, pc, h, hw => by
     simp only [Located] at h
     simp only [wfE, Bool.and_eq_true] at hw
     have hpos : pc + len (.binary op l r) - 1 = pc + len l + len r := by simp only [len]; omega
     refine ⟨op, none, by rw [hpos]; exact h.2.2, ?_⟩
     have := hw.1.1
-    cases op <;> simp [binOK] at this <;> simp [LastClass, endsTis]
+    cases op <;> simp [binOK] at this <;> simp [LastClass]
   | .pair l r, pc, h, _ => by
     simp only [Located] at h
     refine ⟨.makePair, none, ?_, .plain (by simp) (by simp) (by simp)⟩
@@ -77,7 +77,7 @@ theorem last_cases (P : Prog F) (root cur : Nat) : ∀ (e : Expr F) (pc : Nat),
     · have := len_pos fe
       have : pc + len (.chain arms (some fe)) - 1 = pc + lenArms arms + len fe - 1 := by rw [len_chain]; simp only; omega
       rw [this]; exact hi
-    · simpa [LastClass, endsTis] using hc
+    · simpa [LastClass] using hc
   | .and l r, pc, h, _ => by
     simp only [Located] at h
     obtain ⟨_, j, join, tb, h1, _⟩ := h
@@ -94,7 +94,7 @@ theorem last_cases (P : Prog F) (root cur : Nat) : ∀ (e : Expr F) (pc : Nat),
     · have := len_pos b
       have : pc + len (.seq a b) - 1 = pc + len a + 1 + len b - 1 := by simp only [len]; omega
       rw [this]; exact hi
-    · simpa [LastClass, endsTis] using hc
+    · simpa [LastClass] using hc
   | .sideAfter x b, pc, h, _ => by
     simp only [Located] at h
     refine ⟨.endSideEffect, none, ?_, .plain (by simp) (by simp) (by simp)⟩
@@ -102,7 +102,7 @@ theorem last_cases (P : Prog F) (root cur : Nat) : ∀ (e : Expr F) (pc : Nat),
     rw [this]; exact h.2.2.2
   | .reapply x, pc, h, _ => by
     simp only [Located] at h
-    refine ⟨.jumpTo, some cur, ?_, ⟨by simp, by simp, by simp⟩⟩
+    refine ⟨.jumpTo, some cur, ?_, ⟨by simp, by simp⟩⟩
     have : pc + len (.reapply x) - 1 = pc + len x + 1 := by simp only [len]; omega
     rw [this]; exact h.2.2
   | .prefixApply sym x, pc, h, _ => by
@@ -121,20 +121,17 @@ theorem last_cases (P : Prog F) (root cur : Nat) : ∀ (e : Expr F) (pc : Nat),
     have : pc + len (.infixApply a sym b) - 1 = pc + 1 + len a + len b + 1 := by simp only [len]; omega
     rw [this]; exact h.2.2.2.2
 
-/-- the terminators `[JumpTo join]` / `[EndExpression]` of a root are never skipped -/
-theorem termsAfter_jump {P : Prog F} {root cur pc join : Nat} {e : Expr F}
-    (h : Located P root cur pc e) (hw : wfE e = true) (hj : join ≠ cur) :
-    termsAfter P (pc + len e) [(.jumpTo, some join)] = [(.jumpTo, some join)] := by
-  obtain ⟨i, d, hi, hc⟩ := last_cases P root cur e pc h hw
-  simp only [termsAfter, List.filter, hi]
-  have : ¬ ((i, d) = (Instruction.jumpTo, some join)) := by
-    intro heq
-    simp only [Prod.mk.injEq] at heq
-    have := hc.2.1 heq.1
-    rw [heq.2] at this
-    exact hj (by simpa using this)
-  simp [this]
+/-- only an `EndExpression` terminator can be skipped -/
+theorem termsAfter_jump {P : Prog F} {pcEnd join : Nat} :
+    termsAfter P pcEnd [(.jumpTo, some join)] = [(.jumpTo, some join)] := by
+  simp [termsAfter]
 
+theorem termsAfter_tis {P : Prog F} {pcEnd join : Nat} :
+    termsAfter P pcEnd [(.tis, none), (.jumpTo, some join)] = [(.tis, none), (.jumpTo, some join)] := by
+  simp [termsAfter]
+
+/-- the `EndExpression` of a body is never skipped: the main line of a well-formed expression does not end
+with one -/
 theorem termsAfter_end {P : Prog F} {root cur pc : Nat} {e : Expr F}
     (h : Located P root cur pc e) (hw : wfE e = true) :
     termsAfter P (pc + len e) [(.endExpression, none)] = [(.endExpression, none)] := by
@@ -143,113 +140,7 @@ theorem termsAfter_end {P : Prog F} {root cur pc : Nat} {e : Expr F}
   have : ¬ ((i, d) = (Instruction.endExpression, (none : Option Nat))) := by
     intro heq
     simp only [Prod.mk.injEq] at heq
-    exact hc.2.2 heq.1
+    exact hc.2 heq.1
   simp [this]
-
-/-- the terminators `[Tis, JumpTo join]`: `Tis` is skipped exactly when the main line ends with `Tis` -/
-theorem termsAfter_tis {P : Prog F} {root cur pc join : Nat} {e : Expr F}
-    (h : Located P root cur pc e) (hw : wfE e = true) (hj : join ≠ cur) :
-    (termsAfter P (pc + len e) [(.tis, none), (.jumpTo, some join)] = [(.tis, none), (.jumpTo, some join)]) ∨
-    (termsAfter P (pc + len e) [(.tis, none), (.jumpTo, some join)] = [(.jumpTo, some join)] ∧ endsTis e = true) := by
-  obtain ⟨i, d, hi, hc⟩ := last_cases P root cur e pc h hw
-  simp only [termsAfter, List.filter, hi]
-  have h2 : ¬ ((i, d) = (Instruction.jumpTo, some join)) := by
-    intro heq
-    simp only [Prod.mk.injEq] at heq
-    have := hc.2.1 heq.1
-    rw [heq.2] at this
-    exact hj (by simpa using this)
-  by_cases h1 : (i, d) = (Instruction.tis, (none : Option Nat))
-  · right
-    simp only [Prod.mk.injEq] at h1
-    refine ⟨?_, (hc.1 h1.1).2⟩
-    obtain ⟨rfl, rfl⟩ := h1
-    simp
-  · left
-    simp [h1, h2]
-
-/-! ### a main line that ends in `Tis` yields a boolean -/
-
-variable {fo : FloatOps F} {host : Host F} {bodies : List (Nat × Expr F)}
-
-theorem ofBool_truthy (b : Bool) : (Val.ofBool (F := F) b).truthy = b := by
-  cases b <;> rfl
-
-theorem tis_bool : ∀ (fuel : Nat) (cur : Nat) (e : Expr F) (st st' : St F) (v : Val F),
-    endsTis e = true → skipSafe e = true → wfE e = true →
-    evalF fo host bodies cur fuel e st = .ok (.val v, st') → v = Val.ofBool v.truthy := by
-  intro fuel
-  induction fuel using Nat.strongRecOn with
-  | _ fuel ih =>
-    intro cur e st st' v ht hs hw h
-    cases fuel with
-    | zero => simp [evalF] at h
-    | succ fuel =>
-      cases e with
-      | unary op x =>
-        simp only [endsTis, beq_iff_eq] at ht
-        subst ht
-        simp only [evalF] at h
-        cases hx : evalF fo host bodies cur fuel x st with
-        | err e => simp [hx] at h
-        | fuelOut => simp [hx] at h
-        | ok p =>
-          obtain ⟨r, st1⟩ := p
-          cases r with
-          | restart w => simp [hx] at h
-          | val w =>
-            simp [hx, unaryOp, settle] at h
-            rw [← h.1, ofBool_truthy]
-      | binary op l r =>
-        simp only [endsTis, beq_iff_eq] at ht
-        subst ht
-        simp [wfE, binOK] at hw
-      | seq a b =>
-        simp only [endsTis] at ht
-        simp only [skipSafe] at hs
-        simp only [wfE, Bool.and_eq_true] at hw
-        simp only [evalF] at h
-        cases hx : evalF fo host bodies cur fuel a st with
-        | err e => simp [hx] at h
-        | fuelOut => simp [hx] at h
-        | ok p =>
-          obtain ⟨r, st1⟩ := p
-          cases r with
-          | restart w => simp [hx] at h
-          | val w =>
-            simp only [hx] at h
-            exact ih fuel (Nat.lt_succ_self _) cur b _ st' v ht hs hw.2 h
-      | chain arms final =>
-        cases final with
-        | none => simp [endsTis] at ht
-        | some fe =>
-          cases arms with
-          | cons arm rest => simp [endsTis, skipSafe] at ht hs; simp [ht] at hs
-          | nil =>
-            simp only [endsTis] at ht
-            simp only [skipSafe] at hs
-            simp only [wfE_chain, Bool.and_eq_true] at hw
-            simp only [evalF] at h
-            cases fuel with
-            | zero => simp [evalChain] at h
-            | succ fuel =>
-              simp only [evalChain] at h
-              exact ih fuel (by omega) cur fe st st' v ht hs hw.2 h
-      | lit _ => simp [endsTis] at ht
-      | input => simp [endsTis] at ht
-      | ident _ => simp [endsTis] at ht
-      | pair _ _ => simp [endsTis] at ht
-      | applyTo _ _ => simp [endsTis] at ht
-      | list _ => simp [endsTis] at ht
-      | cond _ _ _ => simp [endsTis] at ht
-      | and _ _ => simp [endsTis] at ht
-      | or _ _ => simp [endsTis] at ht
-      | sideAfter _ _ => simp [endsTis] at ht
-      | nested _ => simp [endsTis] at ht
-      | emptyNested => simp [endsTis] at ht
-      | reapply _ => simp [endsTis] at ht
-      | prefixApply _ _ => simp [endsTis] at ht
-      | suffixApply _ _ => simp [endsTis] at ht
-      | infixApply _ _ _ => simp [endsTis] at ht
 
 end Garnish.Abs
